@@ -146,6 +146,10 @@ type Config struct {
 	// pushed with this value XORed in (the library was handed the number at push time; what the caller does to its
 	// struct afterwards changes neither grouping nor order).  The callback restores the field before the monitors look.
 	MutateAfterPush uint32
+	// FullStream: the Stream handed to NewReassembler ALSO has every method of every interface type the tree under test
+	// declares in its root package (generated at check time by the instrumenter: libaudit.VerifFullStream) - a Stream that
+	// happens to satisfy an optional interface the library asserts on still gets every ReassemblyComplete / EventsLost
+	FullStream bool
 }
 
 const farTimeout = int64(1) << 40
@@ -189,6 +193,9 @@ func (c Config) String() string {
 	}
 	if c.StreamOwnsSlice {
 		re += " stream-appends-to-and-clears-its-slice"
+	}
+	if c.FullStream {
+		re += " stream-with-every-declared-interface-method"
 	}
 	if c.ReenterPushLow {
 		re += " stream-pushes-a-lower-complete-event-from-callback"
@@ -543,7 +550,11 @@ func NewInstance(cfg Config) *Instance {
 	in := &Instance{cfg: cfg, pending: map[uint32]*shadowEvent{}}
 	in.heapMin.ord = in.ord
 	in.clock = vtime.Install()
-	r, err := libaudit.NewReassembler(cfg.MaxInFlight, cfg.timeout(), in)
+	var stream libaudit.Stream = in
+	if cfg.FullStream {
+		stream = &libaudit.VerifFullStream{Stream: in}
+	}
+	r, err := libaudit.NewReassembler(cfg.MaxInFlight, cfg.timeout(), stream)
 	if err != nil || r == nil {
 		in.fail("M19", "new-failed", "NewReassembler with a stream failed: %v", err)
 		return in
